@@ -598,11 +598,11 @@ def prop_osc_irf(case):
     C = _constant(kind)
     _decay_position_check(case, dm, times, _cl(kind, "decay_position_formula"))
     mat = _code_matrix(case, dm, times, "doas_irf" if kind == "doas" else "pfid")
-    idx = _indices(case)
     n = len(case["osc"])
     mat_i = mat[None] if mat.ndim == 2 else mat
     region = in_d8_region(case)
     ref, scale, trunc, before, cond = _osc_reference(case, times)
+
     def expected(reference):
         ref_, scale_, trunc_, _, cond_ = reference
         sc_ = np.concatenate([scale_, scale_], axis=-1)[:, None, :]
@@ -782,6 +782,7 @@ def prop_shape(case):
             got = float(mat[a, j])
             base = 1e-12 * abs(float(A))
             u = (x - x0) / fw
+
             def gauss_interval():
                 vals = [O.shape_gaussian(xx, A, x0, fw) for xx in (x - dx, x, x + dx)]
                 if x - dx <= x0 <= x + dx:
